@@ -383,6 +383,9 @@ class Doist(tyming.Tymist):
             opts = doer.opts if hasattr(doer, "opts") else {}
 
             dog = doer(tymth=self.tymen(), tock=doer.tock, temp=temp, **opts)  # calls doer.do
+            # enter order of its deed. Taken before its enter context runs since
+            # that may extend and so enter other doers after this one
+            self._ranks[dog] = next(self._count)
             try:
                 tock = dog.send(None)  # next(dog) run enter by advancing to first yield
                 # tock ignored on enter, so can't change tock until first recur
@@ -394,8 +397,11 @@ class Doist(tyming.Tymist):
                     # write to doer.__func__.done read from doer.done
                     doer.__func__.done = ex.value if ex.value is not None else doer.done
                 continue  # don't append
-            self._ranks[dog] = next(self._count)  # enter order of its deed
             deeds.append((dog, self.tyme, doer))  # first recur immediately
+        if own:  # .extend from a doer's enter put its new deeds ahead of that doer's deed
+            ordered = sorted(deeds, key=lambda deed: self._ranks.get(deed[0], float('inf')))
+            deeds.clear()
+            deeds.extend(ordered)
         return deeds
 
 
@@ -458,6 +464,7 @@ class Doist(tyming.Tymist):
         fresh = [deed for deed in deeds if deed[0] not in redogs]
         if fresh:
             stale = [deed for deed in deeds if deed[0] in redogs]
+            fresh.sort(key=lambda deed: self._ranks.get(deed[0], float('inf')))
             deeds.clear()
             deeds.extend(stale + fresh)
 
@@ -1305,6 +1312,9 @@ class DoDoer(Doer):
             opts = doer.opts if hasattr(doer, "opts") else {}
 
             dog = doer(tymth=self.tymth, tock=doer.tock, temp=temp, **opts)  # calls doer.do
+            # enter order of its deed. Taken before its enter context runs since
+            # that may extend and so enter other doers after this one
+            self._ranks[dog] = next(self._count)
             try:
                 next(dog)  # run enter by advancing to first yield
             except StopIteration as ex:  # return not yield
@@ -1321,8 +1331,11 @@ class DoDoer(Doer):
 
 
                 continue  # don't append already complete
-            self._ranks[dog] = next(self._count)  # enter order of its deed
             deeds.append((dog, self.tyme, doer))
+        if own:  # .extend from a doer's enter put its new deeds ahead of that doer's deed
+            ordered = sorted(deeds, key=lambda deed: self._ranks.get(deed[0], float('inf')))
+            deeds.clear()
+            deeds.extend(ordered)
         return deeds
 
 
@@ -1378,6 +1391,7 @@ class DoDoer(Doer):
         fresh = [deed for deed in deeds if deed[0] not in redogs]
         if fresh:
             stale = [deed for deed in deeds if deed[0] in redogs]
+            fresh.sort(key=lambda deed: self._ranks.get(deed[0], float('inf')))
             deeds.clear()
             deeds.extend(stale + fresh)
 
